@@ -429,7 +429,12 @@ func (d *Driver) Apply(o Op, m *Model) Res {
 				k = e[:i]
 				ifm = sp(m.ResolveETag(o.B, k, e[i+5:]))
 			}
-			entries = append(entries, storage.DeleteObjectsInputEntry{Key: storage.MustNewObjectKey(k), IfMatchETag: ifm})
+			var vid *string
+			if i := strings.Index(e, "?v="); i >= 0 {
+				k = e[:i]
+				vid = d.rawVID(e[i+3:])
+			}
+			entries = append(entries, storage.DeleteObjectsInputEntry{Key: storage.MustNewObjectKey(k), IfMatchETag: ifm, VersionID: vid})
 		}
 		_, err := s.DeleteObjects(ctx, bn, entries)
 		return Res{Err: ErrKind(err)}
